@@ -192,4 +192,205 @@ theorem dictinfo_accepts (d : Dict) (x : List (Nat × Nat) × Nat × Nat × Nat)
 theorem dictinfo_never_panics (d : Dict) (p : String) : getDictInfo d ≠ .panic p := by
   rcases dictinfo_char d with ⟨h1, _⟩ | ⟨m, h1, _⟩ <;> rw [h1] <;> simp
 
+/-! ## the classic table -/
+
+/-- C13 `entry_malformed_rejected`, as an equivalence.  `XrefEntP` accepts exactly when the 20 bytes
+    under the cursor are in the fixed form (10 digits, SP, 5 digits with value ≤ 65535, SP, `f`|`n`,
+    one of the three terminators); then the entry, its span `[i, i+20)` and the cursor `i+20` are as
+    specified.  Anything else - too short, a non-digit, a wrong separator, generation above 65535,
+    another type letter, another terminator - is rejected; it never panics. -/
+theorem entry_spec (idx : Nat) (s : Bytes) (i : Nat) :
+    match entryAt s i with
+    | some x => xrefEntP idx s i = (.ok ⟨mkEnt idx x, i, i + 20⟩, i + 20)
+    | none => ∃ k c, xrefEntP idx s i = (.err k, c) := by
+  by_cases h : i + 20 ≤ s.length
+  · have ⟨h1, h2⟩ := ent_long idx s i h
+    cases hx : entryAt s i with
+    | some x => exact h1 x hx
+    | none => obtain ⟨c, hc⟩ := h2 hx; exact ⟨_, c, hc⟩
+  · rw [entryAt_short s i h]
+    cases hr : xrefEntP idx s i with
+    | mk r c =>
+      cases r with
+      | ok e => exact absurd (ent_ok_len idx s i e c hr) h
+      | err k => exact ⟨k, c, rfl⟩
+      | panic p => exact absurd hr (ent_no_panic idx s i p c)
+
+theorem entry_malformed_rejected (idx : Nat) (s : Bytes) (i : Nat) (h : entryAt s i = none) :
+    ∃ k c, xrefEntP idx s i = (.err k, c) := by
+  have := entry_spec idx s i
+  rw [h] at this; exact this
+
+theorem entry_ok_inv (idx : Nat) (s : Bytes) (i : Nat) (e : Located Ent) (c : Nat)
+    (h : xrefEntP idx s i = (.ok e, c)) :
+    ∃ x, entryAt s i = some x ∧ e = ⟨mkEnt idx x, i, i + 20⟩ ∧ c = i + 20 := by
+  have := entry_spec idx s i
+  cases hx : entryAt s i with
+  | some x =>
+    rw [hx] at this; simp only at this
+    rw [this] at h
+    simp only [Prod.mk.injEq, Res.ok.injEq] at h
+    exact ⟨x, rfl, h.1.symm, h.2.symm⟩
+  | none =>
+    rw [hx] at this
+    obtain ⟨k, c', hk⟩ := this
+    rw [hk] at h; simp at h
+
+/-- numbering and count of a subsection's entries, whatever the input -/
+theorem ents_numbering : ∀ (n obj : Nat) (s : Bytes) (c : Nat) (l : List (Located Ent)) (c' : Nat),
+    entsLoop n obj s c = (.ok l, c') →
+    l.length = n ∧ c' = c + 20 * n ∧ ∀ k (h : k < l.length), (l[k]).val.obj = obj + k := by
+  intro n
+  induction n with
+  | zero => intro obj s c l c' h; simp [entsLoop] at h; obtain ⟨rfl, rfl⟩ := h; simp
+  | succ n ih =>
+    intro obj s c l c' h
+    simp only [entsLoop] at h
+    split at h
+    · simp at h
+    · cases hr : xrefEntP obj s c with
+      | mk r c1 =>
+        cases r with
+        | ok e =>
+          simp only [hr] at h
+          cases hl : entsLoop n (obj + 1) s c1 with
+          | mk r2 c2 =>
+            cases r2 with
+            | ok es =>
+              simp only [hl] at h
+              simp only [Prod.mk.injEq, Res.ok.injEq] at h
+              obtain ⟨rfl, rfl⟩ := h
+              have ⟨hlen, hcur, hnum⟩ := ih (obj + 1) s c1 es c2 hl
+              obtain ⟨x, _, he, hc1⟩ := entry_ok_inv obj s c e c1 hr
+              refine ⟨by simp [hlen], by omega, fun k hk => ?_⟩
+              cases k with
+              | zero => simp [he, mkEnt]
+              | succ k =>
+                simp only [List.getElem_cons_succ]
+                rw [hnum k (by simpa using hk)]; omega
+            | err k => simp [hl] at h
+            | panic p => simp [hl] at h
+        | err k => simp [hr] at h
+        | panic p => simp [hr] at h
+
+
+theorem entryAt_enc (e : TEnt) (hwf : e.wf) (s : Bytes) (c : Nat) (r : Bytes)
+    (hs : s.drop c = encEntry e ++ r) : entryAt s c = some (e.info, e.gen, e.inuse) := by
+  unfold entryAt
+  rw [hs, List.take_left' (encEntry_length e)]
+  exact entryForm_enc e hwf
+
+theorem ents_roundtrip : ∀ (es : List TEnt) (obj : Nat) (s : Bytes) (c : Nat) (rest : Bytes),
+    s.drop c = es.flatMap encEntry ++ rest → (∀ e ∈ es, e.wf) → obj + es.length ≤ usizeLim →
+    ∃ l, entsLoop es.length obj s c = (.ok l, c + 20 * es.length) ∧ l.map (·.val) = number obj es := by
+  intro es
+  induction es with
+  | nil => intro obj s c rest _ _ _; exact ⟨[], by simp [entsLoop], rfl⟩
+  | cons e t ih =>
+    intro obj s c rest hs hwf hlim
+    simp only [List.flatMap_cons, List.append_assoc] at hs
+    have hat := entryAt_enc e (hwf e (by simp)) s c _ hs
+    have hent := entry_spec obj s c
+    rw [hat] at hent
+    simp only at hent
+    have hs' := drop_step hs
+    rw [encEntry_length] at hs'
+    simp only [List.length_cons] at hlim
+    obtain ⟨l, hl, hm⟩ := ih (obj + 1) s (c + 20) rest hs' (fun x hx => hwf x (by simp [hx])) (by omega)
+    refine ⟨(⟨mkEnt obj (e.info, e.gen, e.inuse), c, c + 20⟩ : Located Ent) :: l, ?_, ?_⟩
+    · have hlt : ¬ obj ≥ usizeLim := by omega
+      simp only [List.length_cons, entsLoop, hlt, if_false, hent, hl]
+      congr 1; omega
+    · simp [number, hm, mkEnt]
+
+
+theorem digit_not_ws (d : UInt8) (h : Xref.isDigit d = true) :
+    Xref.isWsNoEol d = false ∧ Xref.isWsEol d = false ∧ d ≠ 37 ∧ d ≠ 43 ∧ d ≠ 45 := by
+  simp only [Xref.isDigit, Bool.and_eq_true, decide_eq_true_eq, UInt8.le_iff_toNat_le] at h
+  have h1 : (48 : UInt8).toNat = 48 := rfl
+  have h2 : (57 : UInt8).toNat = 57 := rfl
+  rw [h1, h2] at h
+  have hne : ∀ k : UInt8, k.toNat < 48 → ¬ d = k := by
+    intro k hk hdk; subst hdk; omega
+  refine ⟨?_, ?_, hne 37 (by decide), hne 43 (by decide), hne 45 (by decide)⟩
+  · simp [Xref.isWsNoEol, hne 32 (by decide), hne 0 (by decide), hne 9 (by decide), hne 13 (by decide), hne 12 (by decide)]
+  · simp [Xref.isWsEol, hne 32 (by decide), hne 0 (by decide), hne 9 (by decide), hne 13 (by decide), hne 12 (by decide), hne 10 (by decide)]
+
+theorem ws_not_digit (b : UInt8) (h : Xref.isWsEol b = true) : Xref.isDigit b = false := by
+  cases hd : Xref.isDigit b with
+  | false => rfl
+  | true => have := (digit_not_ws b hd).2.1; rw [this] at h; cases h
+
+theorem encEntries_length (es : List TEnt) : (es.flatMap encEntry).length = 20 * es.length := by
+  induction es with
+  | nil => rfl
+  | cons e t ih => simp only [List.flatMap_cons, List.length_append, encEntry_length, ih, List.length_cons]; omega
+
+theorem encEntry_head (e : TEnt) : ∃ d t, encEntry e = d :: t ∧ Xref.isDigit d = true := by
+  obtain ⟨d, t, hd, hdig⟩ := padDec_head 10 e.info (by omega)
+  refine ⟨d, t ++ ([32] ++ padDec 5 e.gen ++ [32] ++ [if e.inuse then 110 else 102] ++ e.eol.bytes), ?_, hdig⟩
+  simp [encEntry, hd]
+
+theorem encSub_length (t : TSub) : (encSub t).length =
+    t.lead.length + t.wStart + 1 + t.wCount + t.hdrEol.length + 20 * t.ents.length := by
+  simp only [encSub, List.length_append, padDec_length, encEntries_length, List.length_cons, List.length_nil]
+
+theorem subsect_roundtrip (t : TSub) (hwf : t.wf) (hne : t.ents ≠ []) (s : Bytes) (c : Nat) (rest : Bytes)
+    (hs : s.drop c = encSub t ++ rest) :
+    ∃ l, xrefSubSectP s c = (.ok ⟨⟨t.start, t.ents.length, l⟩, c, c + (encSub t).length⟩, c + (encSub t).length)
+      ∧ l.map (·.val) = number t.start t.ents := by
+  obtain ⟨hs1, hs2, hws, hc1, hc2, hwc, hlead, hene, heall, hents⟩ := hwf
+  simp only [encSub, List.append_assoc] at hs
+  -- blanks
+  obtain ⟨d0, t0, hd0, hdig0⟩ := padDec_head t.wStart t.start hws
+  have h0 := wsNoEol_blanks s c t.lead _ hs hlead (by
+    intro b hb; rw [hd0] at hb; simp at hb; subst hb; exact (digit_not_ws _ hdig0).1)
+  have hsA := drop_step hs
+  -- start
+  have hi64 : i64Max = 2 ^ 63 - 1 := rfl
+  have h1 := integerP_padDec t.wStart t.start s _ _ hsA hws hs1 (by omega) (by
+    intro b hb; simp at hb; subst hb; decide)
+  have hsB := drop_step hsA
+  rw [padDec_length] at hsB
+  -- space
+  have hsp : s[c + t.lead.length + t.wStart]? = some 32 := by
+    have := head_of_drop hsB; simpa using this
+  have hsC := drop_step (x := [32]) hsB
+  simp only [List.length_cons, List.length_nil] at hsC
+  -- count
+  obtain ⟨w0, wt, hw0, hwsp⟩ : ∃ w0 wt, t.hdrEol = w0 :: wt ∧ Xref.isWsEol w0 = true := by
+    cases hh : t.hdrEol with
+    | nil => exact absurd hh hene
+    | cons a b =>
+      rw [hh] at heall
+      simp only [List.all_cons, Bool.and_eq_true] at heall
+      exact ⟨a, b, rfl, by rw [← isWs_eq]; exact heall.1⟩
+  have h2 := integerP_padDec t.wCount t.ents.length s _ _ hsC hwc hc1 (by omega) (by
+    intro b hb; rw [hw0] at hb; simp at hb; subst hb; exact ws_not_digit _ hwsp)
+  have hsD := drop_step hsC
+  rw [padDec_length] at hsD
+  -- header EOL
+  obtain ⟨e0, et, he0⟩ : ∃ e0 et, t.ents = e0 :: et := by
+    cases hh : t.ents with
+    | nil => exact absurd hh hne
+    | cons a b => exact ⟨a, b, rfl⟩
+  obtain ⟨d1, t1, hd1, hdig1⟩ := encEntry_head e0
+  have h3 := wsEol_ws s _ t.hdrEol _ hsD (by rw [← isWs_eq]; exact heall) hene (by
+    intro b hb; rw [he0] at hb; simp [hd1] at hb; subst hb
+    exact ⟨(digit_not_ws _ hdig1).2.1, (digit_not_ws _ hdig1).2.2.1⟩)
+  have hsE := drop_step hsD
+  -- entries
+  obtain ⟨l, hl, hm⟩ := ents_roundtrip t.ents t.start s _ rest hsE hents (by
+    have : usizeLim = 2 ^ 64 := rfl
+    omega)
+  refine ⟨l, ?_, hm⟩
+  unfold xrefSubSectP
+  have hnn : ¬ ((t.start : Int) < 0) := by omega
+  have hnn2 : ¬ ((t.ents.length : Int) < 0) := by omega
+  simp only [h0, andThen_ok, h1, hnn, if_false, exact_byte, hsp, if_true, h2, hnn2, h3, Int.toNat_natCast, hl]
+  rw [encSub_length]
+  have : c + t.lead.length + t.wStart + 1 + t.wCount + t.hdrEol.length + 20 * t.ents.length
+      = c + (t.lead.length + t.wStart + 1 + t.wCount + t.hdrEol.length + 20 * t.ents.length) := by omega
+  rw [this]
+
 end Parsley.C13
